@@ -149,6 +149,15 @@ func (c *CheckCtx) runModeT(pkgRels []string, cfgs []*HarnessCfg) {
 		if h := os.Getenv("VERIF_HARNESS"); h != "" && h != cfg.Name {
 			continue // debugging aid: run a single harness of the check
 		}
+		if sel := os.Getenv("VERIF_PARAMSEL"); sel != "" { // debugging aid: "name=value" selects configurations
+			kv := strings.SplitN(sel, "=", 2)
+			if len(kv) == 2 && fmt.Sprint(cfg.Params[kv[0]]) != kv[1] {
+				continue
+			}
+		}
+		if cfg.Validate == 0 && cfg.NoValidate == "" && !cfg.EngineReplay && (c.Tier == "thorough" || os.Getenv("VERIF_VALIDATE") != "") {
+			cfg.Validate = 1 // thorough tier: one witness per cover label is re-run on the native build
+		}
 		if cfg.Validate > 0 {
 			cfg.KeepWitnesses = true
 		}
@@ -172,6 +181,12 @@ func (c *CheckCtx) runModeT(pkgRels []string, cfgs []*HarnessCfg) {
 				path := filepath.Join(c.WorkDir, fmt.Sprintf("witness-%s-%d.json", cfg.Name, c.Validated))
 				saveJSON(path, rf)
 				_, st, _ := nativeReplay(c.WorkDir, pr, rf, path)
+				if strings.HasPrefix(st, "unrealisable") {
+					// the native harness cannot build this particular environment (e.g. a working directory
+					// directly under /): not a disagreement, the witness is skipped
+					c.addExtra("witnesses_not_realisable_natively", cfg.Name+":"+w.Label)
+					continue
+				}
 				c.Validated++
 				if st != "ok" {
 					keep := c.saveReplay(rf, 900+c.Validated)
@@ -216,7 +231,12 @@ func (c *CheckCtx) runModeT(pkgRels []string, cfgs []*HarnessCfg) {
 			rf := &ReplayFile{Property: c.ID, Pkg: pkgRel, Harness: cfg.Name, Label: v.Label, Vec: v.Vec, Tags: v.Tags, Params: cfg.Params}
 			path := c.saveReplay(rf, n)
 			c.Replays++
-			lbl, st, out := nativeReplay(c.WorkDir, pkgRel, rf, path)
+			var lbl, st, out string
+			if !cfg.EngineReplay {
+				lbl, st, out = nativeReplay(c.WorkDir, pkgRel, rf, path)
+			} else {
+				st = "not attempted natively (schedule/crash/fault harness)"
+			}
 			if st != "violated" && cfg.EngineReplay {
 				// schedules / crash points / injected faults cannot be forced on the native build without
 				// instrumentation: confirm on the real code's SSA by concrete re-execution with the model
@@ -230,9 +250,13 @@ func (c *CheckCtx) runModeT(pkgRels []string, cfgs []*HarnessCfg) {
 				for _, cv := range cres.Violations {
 					if cv.Label == v.Label {
 						st, lbl = "violated", v.Label+" (confirmed by concrete re-execution of the SSA; native run: "+st+")"
-						c.Extra["engine_replays"] = fmt.Sprint(c.Extra["engine_replays"]) + " " + v.Label
+						c.addExtra("engine_replays", v.Label)
 						break
 					}
+				}
+				if st != "violated" {
+					// the concrete re-execution did not confirm it: last resort, the native build
+					lbl, st, out = nativeReplay(c.WorkDir, pkgRel, rf, path)
 				}
 			}
 			if st == "violated" {
@@ -314,4 +338,9 @@ func (c *CheckCtx) runModeT(pkgRels []string, cfgs []*HarnessCfg) {
 			}
 		}
 	}
+}
+
+func (c *CheckCtx) addExtra(key, item string) {
+	l, _ := c.Extra[key].([]string)
+	c.Extra[key] = append(l, item)
 }
